@@ -87,3 +87,10 @@ func TestC11Known(t *testing.T) {
 		}
 	}
 }
+
+// TestReplayC11 runs the library-free witness scripts of /verif/replays/C11.
+func TestReplayC11(t *testing.T) {
+	st := stats.New("C11", "replay")
+	defer st.Flush()
+	fx.ReplayDir(t, st)
+}
